@@ -61,6 +61,12 @@ func (p *Parser) nextToken() error {
 	}
 
 	token, err := p.lexer.NextToken()
+	// Comments count as white space (ISO 32000-1 7.2.3): never hand them to
+	// the grammar, so that they may also appear inside "n g R", between
+	// "n g obj" and in front of "stream" / "endobj".
+	for err == nil && token.Type == TokenComment {
+		token, err = p.lexer.NextToken()
+	}
 	if err != nil {
 		// Drop the lookahead: keeping the stale token would hand the same
 		// token to the caller again and again (callers that ignore this error
